@@ -8,10 +8,11 @@ Property theorems only (helper lemmas: `Lemmas/GraphPath.lean` — the invariant
 as it is after fix 9d0d428. Weights: any linearly ordered additive commutative monoid, non-negative (`WFNet`);
 edge ids unique (`UniqueIds`, `EDGES` is a dict); points: any type.
 
-`Route net geo s l g t y` (see `Lemmas/GraphBack.lean`) says: `l ++ [t]` is a list of nodes starting at `s` in which
+`Route net geo s l g g' t y` (see `Lemmas/GraphBack.lean`) says: `l ++ [t]` is a list of nodes starting at `s` in which
 each consecutive pair is joined by an existing edge travelled in a direction its orientation permits, `y` is the sum of
-those edges' weights, and `g` is the concatenation of those edges' polylines, each oriented along the direction of
-travel and each without its last vertex (= the first vertex of the next polyline: junction vertices appear once). -/
+those edges' weights, `g` is the concatenation of those edges' polylines, each oriented along the direction of
+travel and each without its last vertex (= the first vertex of the next polyline: junction vertices appear once), and
+`g'` is the same concatenation with each polyline deprived of its first vertex instead. -/
 namespace TV.C07
 open TV.Graph
 variable {W : Type} [AddCommMonoid W] [LinearOrder W] [IsOrderedAddMonoid W] {P : Type}
@@ -27,7 +28,7 @@ its geometry is the chain of those edges' polylines along the travel, junction v
 of `t`; and the recorded weights sum to the label of `t`. -/
 theorem path_is_walk (net : Net W) (hnet : WFNet net) (hu : UniqueIds net) (geo : Geo P) (s t : Nat) (hs : s < net.n)
     (cut : Option W) (nodes : List Nat) (geom : List P) (h : shortestPath net geo s t cut = .path nodes geom) :
-    ∃ l g y, nodes = l ++ [t] ∧ geom = g ++ [geo.pos t] ∧ nodes.head? = some s ∧ Route net geo s l g t y ∧
+    ∃ l g g' y, nodes = l ++ [t] ∧ geom = g ++ [geo.pos t] ∧ nodes.head? = some s ∧ Route net geo s l g g' t y ∧
       Walk net s t y ∧ shortestDistance net s t cut = some y := by
   have hg := forward_state_good net hnet s t hs cut
   obtain ⟨h1, h2⟩ := runBackward_spec net hu geo s _ hg t
@@ -35,43 +36,45 @@ theorem path_is_walk (net : Net W) (hnet : WFNet net) (hu : UniqueIds net) (geo 
   cases hpt : (runForward net s (some t) cut).1.pred t with
   | none => rw [h1 hpt] at h; cases h
   | some p =>
-    obtain ⟨l, g, y, hd, hr, hb⟩ := h2 p hpt
+    obtain ⟨l, g, g', y, hd, hr, hb⟩ := h2 p hpt
     rw [hb] at h
     simp only [Back.path.injEq] at h
     obtain ⟨rfl, rfl⟩ := h
-    exact ⟨l, g, y, rfl, rfl, hr.nodes_head, hr, hr.walk, hd⟩
+    exact ⟨l, g, g', y, rfl, rfl, hr.nodes_head, hr, hr.walk, hd⟩
 
 /-- T2 (`path_optimal`): the weights of the edges used by the path returned by `shortest_path(s, t)` sum to the
 true shortest distance. -/
 theorem path_optimal (net : Net W) (hnet : WFNet net) (hu : UniqueIds net) (geo : Geo P) (s t : Nat) (hs : s < net.n)
     (nodes : List Nat) (geom : List P) (h : shortestPath net geo s t none = .path nodes geom) :
-    ∃ l g y, nodes = l ++ [t] ∧ geom = g ++ [geo.pos t] ∧ Route net geo s l g t y ∧ IsDist net s t y := by
-  obtain ⟨l, g, y, a, b, _, c, _, d⟩ := path_is_walk net hnet hu geo s t hs none nodes geom h
-  exact ⟨l, g, y, a, b, c, ((shortestDistance_spec net hnet s t hs).1 y).1 d⟩
+    ∃ l g g' y, nodes = l ++ [t] ∧ geom = g ++ [geo.pos t] ∧ Route net geo s l g g' t y ∧ IsDist net s t y := by
+  obtain ⟨l, g, g', y, a, b, _, c, _, d⟩ := path_is_walk net hnet hu geo s t hs none nodes geom h
+  exact ⟨l, g, g', y, a, b, c, ((shortestDistance_spec net hnet s t hs).1 y).1 d⟩
 
 /-- T2 with a cut-off: if the true distance does not exceed the cut-off, the returned path realises it. -/
 theorem path_optimal_cut (net : Net W) (hnet : WFNet net) (hu : UniqueIds net) (geo : Geo P) (s t : Nat) (hs : s < net.n)
     (cut : Option W) (d : W) (hd : IsDist net s t d) (hw : Within cut d)
     (nodes : List Nat) (geom : List P) (h : shortestPath net geo s t cut = .path nodes geom) :
-    ∃ l g, nodes = l ++ [t] ∧ geom = g ++ [geo.pos t] ∧ Route net geo s l g t d := by
-  obtain ⟨l, g, y, a, b, _, c, _, e⟩ := path_is_walk net hnet hu geo s t hs cut nodes geom h
+    ∃ l g g', nodes = l ++ [t] ∧ geom = g ++ [geo.pos t] ∧ Route net geo s l g g' t d := by
+  obtain ⟨l, g, g', y, a, b, _, c, _, e⟩ := path_is_walk net hnet hu geo s t hs cut nodes geom h
   have : shortestDistance net s t cut = some d := by
     unfold shortestDistance runForward
     exact forward_label net hnet s t cut d hw net.n _ _ (inv_init net s hs) ((run_isDist net hnet s hs t d).2 hd)
   rw [this] at e
   cases e
-  exact ⟨l, g, a, b, c⟩
+  exact ⟨l, g, g', a, b, c⟩
 
 /-- T3 (`geometry_chained`): when every edge polyline starts at its source's position and ends at its target's,
-the returned geometry (a chain of the used edges' polylines, see `path_is_walk`) starts at the position of `s`
-and ends at the position of `t`. -/
+the returned geometry is the position of `s` followed by the polylines of the edges used (see `path_is_walk`), each
+oriented along the direction of travel and each without its first vertex (junction vertices once); it starts at the
+position of `s` and ends at the position of `t`. -/
 theorem geometry_chained (net : Net W) (hnet : WFNet net) (hu : UniqueIds net) (geo : Geo P) (hgeo : GeoOK net geo)
     (s t : Nat) (hs : s < net.n) (cut : Option W) (nodes : List Nat) (geom : List P)
     (h : shortestPath net geo s t cut = .path nodes geom) :
-    geom.head? = some (geo.pos s) ∧ geom.getLast? = some (geo.pos t) := by
-  obtain ⟨l, g, y, _, b, _, c, _, _⟩ := path_is_walk net hnet hu geo s t hs cut nodes geom h
-  rw [b]
-  exact ⟨c.geom_head hgeo, by simp⟩
+    ∃ l g g' y, nodes = l ++ [t] ∧ Route net geo s l g g' t y ∧ geom = geo.pos s :: g' ∧
+      geom.head? = some (geo.pos s) ∧ geom.getLast? = some (geo.pos t) := by
+  obtain ⟨l, g, g', y, a, b, _, c, _, _⟩ := path_is_walk net hnet hu geo s t hs cut nodes geom h
+  refine ⟨l, g, g', y, a, c, by rw [b]; exact c.geom_eq hgeo, ?_, by rw [b]; simp⟩
+  rw [b]; exact c.geom_head hgeo
 
 /-- T4 (`unreachable_none`): no permitted walk ⇒ `None`; and `t = s` ⇒ `None` (as coded). -/
 theorem unreachable_none (net : Net W) (hnet : WFNet net) (hu : UniqueIds net) (geo : Geo P) (s t : Nat) (hs : s < net.n)
@@ -101,7 +104,7 @@ theorem reachable_path (net : Net W) (hnet : WFNet net) (hu : UniqueIds net) (ge
     cases hpt : (runForward net s (some t) none).1.pred t with
     | none => rw [hpt] at hsome; cases hsome
     | some p =>
-      obtain ⟨l, g, y', _, _, hb⟩ := (runBackward_spec net hu geo s _ ⟨hinv, rk, K, hp⟩ t).2 p hpt
+      obtain ⟨l, g, g', y', _, _, hb⟩ := (runBackward_spec net hu geo s _ ⟨hinv, rk, K, hp⟩ t).2 p hpt
       exact ⟨_, _, hb⟩
 
 /-- the backward loop `while node.antecedent != ""` always terminates on the flags left by the forward pass -/
@@ -113,7 +116,7 @@ theorem never_diverges (net : Net W) (hnet : WFNet net) (hu : UniqueIds net) (ge
   cases hpt : (runForward net s (some t) cut).1.pred t with
   | none => rw [h1 hpt]; intro h; cases h
   | some p =>
-    obtain ⟨l, g, y, _, _, hb⟩ := h2 p hpt
+    obtain ⟨l, g, g', y, _, _, hb⟩ := h2 p hpt
     rw [hb]; intro h; cases h
 
 /-! ### the hypotheses are satisfiable by a non-trivial network, and the model computes on it -/
